@@ -306,8 +306,32 @@ func c16EscapedWrites(c *Ctx, r *Report) {
 // c16RuneNarrowing: byte(r) of a rune without an ASCII guard.
 func c16RuneNarrowing(c *Ctx, r *Report) {
 	const rule = "C16-d/rune-narrowing"
-	n := 0
+	n := runeNarrowingSites(c, r, rule, "a rune is truncated to a byte on the JSON output path: non-ASCII characters are mangled (and U+2022-style code points can turn into a quote)", minijsonPkg)
+	// the reverse direction: a single byte of the text written as if it were a code point
 	for _, fi := range c.AllFuncDecls(minijsonPkg) {
+		info := fi.Pkg.TypesInfo
+		vi := analyseVars(info, fi.Decl)
+		fg := NewFGraph(fi.Decl.Body, info)
+		fg.SolveFacts(vi)
+		pr := &prover{info: info, vi: vi, fg: fg, body: fi.Decl.Body}
+		for _, ce := range byteAsRuneSites(info, fi.Decl.Body, func(arg ast.Expr, pos token.Pos) bool {
+			facts := fg.FactsAtPos(pos)
+			return pr.proveRange(arg, facts, 0, 0x7f) != "" || pr.holdsText(exprStr(arg)+" < 128", facts)
+		}) {
+			n++
+			r.Bad(rule, fi.Name, exprStr(ce), c.Pos(ce.Pos()), "a byte of the text is widened to a rune on the JSON output path: every byte of a multi-byte character is then re-encoded on its own (é becomes Ã©), so the member no longer decodes to the captured text")
+		}
+	}
+	// zero expected: keep a positive control so that the rule cannot rot silently
+	r.OK(rule, minijsonPkg, "self-test", "-", fmt.Sprintf("scan: %d narrowing conversion(s) examined; the rule's matcher is exercised by checker/selftest", n))
+	_ = token.NoPos
+}
+
+// runeNarrowingSites reports every conversion of a non-constant rune (int32) to a byte that is
+// not known to fit: the low 8 bits of a code point are not a character of the text.
+func runeNarrowingSites(c *Ctx, r *Report, rule, detail string, prefixes ...string) int {
+	n := 0
+	for _, fi := range c.AllFuncDecls(prefixes...) {
 		info := fi.Pkg.TypesInfo
 		vi := analyseVars(info, fi.Decl)
 		fg := NewFGraph(fi.Decl.Body, info)
@@ -329,26 +353,9 @@ func c16RuneNarrowing(c *Ctx, r *Report) {
 			n++
 			facts := fg.FactsAtPos(ce.Pos())
 			okG := pr.proveRange(ce.Args[0], facts, 0, 0xff) != "" || pr.holdsText(exprStr(ce.Args[0])+" < 128", facts)
-			r.Check(okG, rule, fi.Name, exprStr(ce), c.Pos(ce.Pos()), "guard: rune known to fit a byte", "a rune is truncated to a byte on the JSON output path: non-ASCII characters are mangled (and U+2022-style code points can turn into a quote)")
+			r.Check(okG, rule, fi.Name, exprStr(ce), c.Pos(ce.Pos()), "guard: rune known to fit a byte", detail)
 			return true
 		})
 	}
-	// the reverse direction: a single byte of the text written as if it were a code point
-	for _, fi := range c.AllFuncDecls(minijsonPkg) {
-		info := fi.Pkg.TypesInfo
-		vi := analyseVars(info, fi.Decl)
-		fg := NewFGraph(fi.Decl.Body, info)
-		fg.SolveFacts(vi)
-		pr := &prover{info: info, vi: vi, fg: fg, body: fi.Decl.Body}
-		for _, ce := range byteAsRuneSites(info, fi.Decl.Body, func(arg ast.Expr, pos token.Pos) bool {
-			facts := fg.FactsAtPos(pos)
-			return pr.proveRange(arg, facts, 0, 0x7f) != "" || pr.holdsText(exprStr(arg)+" < 128", facts)
-		}) {
-			n++
-			r.Bad(rule, fi.Name, exprStr(ce), c.Pos(ce.Pos()), "a byte of the text is widened to a rune on the JSON output path: every byte of a multi-byte character is then re-encoded on its own (é becomes Ã©), so the member no longer decodes to the captured text")
-		}
-	}
-	// zero expected: keep a positive control so that the rule cannot rot silently
-	r.OK(rule, minijsonPkg, "self-test", "-", fmt.Sprintf("scan: %d narrowing conversion(s) examined; the rule's matcher is exercised by checker/selftest", n))
-	_ = token.NoPos
+	return n
 }
